@@ -214,3 +214,6 @@ Lemma simultaneous_misses :
   nf (run race_cfg (add_clients g0 2) [EFind 0 1; EFind 1 2; EStart 0; EStart 1]) = 2 /\
   nf (run race_cfg (add_clients g0 2) [EFind 0 1; EStart 0; EFind 1 2; EStart 1]) = 1.
 Proof. vm_compute. split; reflexivity. Qed.
+
+Lemma nf_step_find : forall c g ci w, nf (step c g (EFind ci w)) = nf g.
+Proof. intros. rewrite nf_step. cbn [starts_fetch]. apply N.add_0_r. Qed.
